@@ -4,6 +4,7 @@ import (
 	"bytes"
 	"encoding/json"
 	"fmt"
+	"reflect"
 	"regexp"
 	"sort"
 	"strings"
@@ -344,6 +345,68 @@ func c08Invariant(w *c08World) []string {
 	return w.problems
 }
 
+// c08Constructs: for every exported builder and every argument combination of C14's tiny domains, a
+// statement is put into a File and rendered (twice), its arguments are then changed in place
+// (lateMutate), and it is rendered again: the result must equal that of an identically built and
+// changed File that was never rendered before - whatever a render remembers (a memo of null-ness,
+// of a tag's text, of an import block) must not outlive a change of what it was computed from.
+func c08Constructs(r *ev.Recorder) {
+	cs, _ := c14Constructs()
+	var n int64
+	for _, c := range cs {
+		for _, combo := range combos(c.domains) {
+			for variant := 0; variant < 4; variant++ {
+				noFormat, mode := variant&1 == 0, variant>>1
+				build := func() (*jen.File, *jen.Statement, []reflect.Value, bool) {
+					args := c.args(combo, new(int))
+					st := jen.Var().Id("_").Op("=")
+					_, p := call(reflect.ValueOf(st).MethodByName(c.name), args, c.isVar)
+					f := jen.NewFile("p")
+					f.NoFormat = noFormat
+					f.Add(st)
+					f.Var().Id("_").Op("=").Qual("x/y", "Other")
+					return f, st, args, p == nil
+				}
+				fa, sta, argsA, ok := build()
+				if !ok {
+					continue
+				}
+				a1 := jh.RenderFile(fa)
+				a2 := jh.RenderFile(fa)
+				frag1 := jh.Catch(func() (string, error) { var b bytes.Buffer; err := sta.RenderWithFile(&b, fa); return b.String(), err })
+				changed := lateMutate(argsA, mode)
+				a3 := jh.RenderFile(fa)
+				frag3 := jh.Catch(func() (string, error) { var b bytes.Buffer; err := sta.RenderWithFile(&b, fa); return b.String(), err })
+				fb, stb, argsB, _ := build()
+				lateMutate(argsB, mode)
+				b3 := jh.RenderFile(fb)
+				fragB := jh.Catch(func() (string, error) { var b bytes.Buffer; err := stb.RenderWithFile(&b, fb); return b.String(), err })
+				r.Eval(4)
+				n++
+				desc := fmt.Sprintf("%s in a File (NoFormat=%v, arguments %s)", c.describe(combo), noFormat, []string{"extended", "changed in place without changing any size"}[mode])
+				if changed {
+					r.Distinct("construct:" + desc)
+				}
+				msg := ""
+				switch {
+				case a1.Key() != a2.Key():
+					msg = fmt.Sprintf("two consecutive renders differ: %q vs %q", a1, a2)
+				case a3.Key() != b3.Key():
+					msg = fmt.Sprintf("rendered, arguments changed, rendered again: %q; a File built and changed alike but never rendered before: %q", a3, b3)
+				case frag3.Key() != fragB.Key():
+					msg = fmt.Sprintf("the statement rendered with its File after render + change: %q; with a File that was never used before the change: %q", frag3, fragB)
+				case !changed && frag1.Key() != frag3.Key():
+					msg = fmt.Sprintf("two fragment renders with the File differ: %q vs %q", frag1, frag3)
+				}
+				if msg != "" {
+					r.Violate(ev.Violation{Signature: "c08:construct:" + c.name + ":" + problemKind(msg), What: desc + ": " + jh.Short(msg, 300), Case: ev.JSON([]int{-1}), Detail: msg})
+				}
+			}
+		}
+	}
+	r.Note("construct_rerender_cases", n)
+}
+
 func runC08(r *ev.Recorder) {
 	depth := 5
 	if r.Tier == ev.Thorough {
@@ -359,7 +422,7 @@ func runC08(r *ev.Recorder) {
 	r.Rule = fmt.Sprintf("explicit-state BFS over one real File plus two free-standing fragments (Qual(b/f), Qual(c/f)) with rendering in the alphabet; operations: %s; all histories of length <= %d, "+
 		"de-duplicated on (reflection dump of the File incl. import table, hints and body; qualifiers observed so far). Invariant in every distinct state, on a replayed copy: File.Render twice gives identical bytes / identical error-ness; "+
 		"each fragment rendered twice with the File gives identical bytes; every (path -> qualifier) observed in ANY earlier output of the history (File renders and fragment renders, including the render operations of the history itself) is used by every later output, "+
-		"and every later File.Render declares the path under exactly that name; no type error other than unused imports. distinct_nontrivial = states whose history contains a render followed by a later mutation", strings.Join(names, ", "), depth)
+		"and every later File.Render declares the path under exactly that name; no type error other than unused imports. Plus, for every exported builder x every argument combination of C14's domains: in a File, rendered twice, every *Statement argument extended and every tag map enlarged in place (or: map values replaced, sizes unchanged), rendered again (File.Render and RenderWithFile) - equal to an identically built and changed File never rendered before. distinct_nontrivial = states whose history contains a render followed by a later mutation", strings.Join(names, ", "), depth)
 	r.Assume = []string{"Anon is only applied to a path that is never referenced (the property excludes Anon on a referenced path)",
 		"imports that a File declares only because a fragment was rendered with it are allowed to be unused (the property demands the declaration)",
 		"histories longer than the depth bound are outside the bound"}
@@ -405,6 +468,7 @@ func runC08(r *ev.Recorder) {
 			}
 		},
 	})
+	c08Constructs(r)
 	r.Note("states", res.States)
 	r.Note("transitions", res.Transitions)
 	r.Note("traces_validated_against_impl", res.Transitions)
@@ -420,6 +484,9 @@ func replayC08(raw json.RawMessage) (bool, string) {
 	var hist []int
 	if err := json.Unmarshal(raw, &hist); err != nil {
 		return true, "bad case"
+	}
+	if len(hist) == 1 && hist[0] == -1 {
+		return true, "the construct re-render cases are replayed by running the check"
 	}
 	w, ok := c08Build(hist)
 	if !ok {
